@@ -437,6 +437,15 @@ def _simple_effects(chk, ctx) -> None:
         chk.ob('C03.S13', f'State.{name}', ok and n > 0, fi.loc,
                'the actor at the head of the queue pays exactly the advertised amount into his bet'
                + ('; the bring-in is then no longer due but may still be completed' if name == 'post_bring_in' else ''))
+    # a betting action never decides by itself that the round is over: only the round's own end test (S11) does - the update step
+    # is handed the record and nothing else (the pre-decided end is for the set-up of a round nobody can act in)
+    for name in ('fold', 'check_or_call', 'post_bring_in', 'complete_bet_or_raise_to'):
+        fi = ctx.sfi(name)
+        ups = [c for p in ctx.paths(fi) if p.returned for c in p.calls() if c.value == ('self', '_update_betting')]
+        ok = bool(ups) and all(len(c.term[3]) == 1 and not c.term[4] for c in ups)
+        chk.ob('C03.S11', f'State.{name}:no_early_end', ok, fi.loc,
+               'the action hands the round on with its record only: whether the round is over is decided by the end test of the round, '
+               'not by the action (a round ends only when everybody has responded)')
     pa = ctx.sfi('_pop_actor_index')
     ok = any(e.op == 'call:add' and T.root_self_attr(e.term) == 'acted_player_indices' and unversion(e.value) == ('tuple', (T.spec('self.actor_indices.popleft()'),))
              for p in ctx.paths(pa) for e in p.writes())
